@@ -217,16 +217,17 @@ Proof.
   - destruct (index1 c r) as [x'|]; [|discriminate]. cbn [option_map] in H. injection H as <-.
     destruct (IH x' eq_refl). cbn. split; [lia|assumption].
 Qed.
+Lemma index2_eq c d y z r : index2 c d (y :: z :: r) =
+  if ((y =? c) && (z =? d))%N then Some O else option_map S (index2 c d (z :: r)).
+Proof. reflexivity. Qed.
 Lemma index2_bound c d s x : index2 c d s = Some x -> (S x < length s)%nat /\
   nth_error s x = Some c /\ nth_error s (S x) = Some d.
 Proof.
   revert x. induction s as [|y r IH]; intros x H; [discriminate|].
-  destruct r as [|z r']; [discriminate|]. cbn [index2] in H.
-  destruct (N.eqb_spec y c) as [->|Hn]; cbn [andb] in H.
-  - destruct (N.eqb_spec z d) as [->|Hm].
-    + injection H as <-. cbn. split; [lia|split; reflexivity].
-    + destruct (index2 c d (z :: r')) as [x'|]; [|discriminate]. cbn [option_map] in H. injection H as <-.
-      destruct (IH x' eq_refl) as (A & B & C). cbn [length] in *. split; [lia|]. split; assumption.
+  destruct r as [|z r']; [discriminate|]. rewrite index2_eq in H.
+  destruct ((y =? c) && (z =? d))%N eqn:E.
+  - apply andb_true_iff in E. destruct E as [E1 E2]. apply N.eqb_eq in E1, E2. subst.
+    injection H as <-. cbn. split; [lia|split; reflexivity].
   - destruct (index2 c d (z :: r')) as [x'|]; [|discriminate]. cbn [option_map] in H. injection H as <-.
     destruct (IH x' eq_refl) as (A & B & C). cbn [length] in *. split; [lia|]. split; assumption.
 Qed.
@@ -261,4 +262,356 @@ Proof.
     rewrite nth_error_app2 in Hm by lia. replace (S (length l1) - length l1)%nat with 1%nat in Hm by lia.
     cbn in Hm. destruct l2 as [|z l2']; [discriminate|]. injection Hm as ->. eexists; reflexivity.
   - injection H as <- <-. split; [exact L|]. split; [reflexivity|discriminate].
+Qed.
+
+(* ---------------------------------------------------------------- lexer invariant *)
+Definition start_ok (text : str) (l : lexer) : Prop := (sline l, scol l + 1) = linecol text (soff l).
+Definition span (k : cur) (off : nat) : Prop := exists b0, before k = tokrev k ++ b0 /\ length b0 = off.
+
+Lemma span_text_at text k off : zip text k -> span k off -> text_at text off (rev (tokrev k)).
+Proof.
+  intros Z (b0 & Hb & Hl). unfold zip in Z. rewrite Hb, rev_app_distr, <- app_assoc in Z. subst text off.
+  unfold text_at. rewrite <- (rev_length b0), skipn_app, skipn_all, Nat.sub_diag. cbn [skipn app].
+  rewrite firstn_app, Nat.sub_diag, firstn_all. cbn [firstn]. apply app_nil_r.
+Qed.
+
+Definition tok_claim (text : str) (c : tcode) (off : nat) (s : str) : Prop :=
+  match c with TUnquoted | TChar _ => text_at text off s /\ s <> [] | _ => True end.
+
+Lemma emitText_items text l c s : Forall (tok_ok text) (items l) -> start_ok text l ->
+  tok_claim text c (soff l) s -> Forall (tok_ok text) (items (emitText l c s)).
+Proof.
+  intros HI HS HC. unfold emitText; cbn [items].
+  destruct (length (items l) <? maxErrors)%nat; [|exact HI].
+  apply Forall_app. split; [exact HI|]. constructor; [|constructor].
+  split; cbn [t_line t_col t_off t_code t_text]; [exact HS|exact HC].
+Qed.
+
+Lemma err_ok_intro text lc k off : lc = linecol text off ->
+  err_ok text {| e_pos := Some lc; e_kind := k; e_subject := Some off |}.
+Proof. intros ->. unfold err_ok; cbn [e_kind e_pos e_subject]. destruct k; try exact I; exists off; split; reflexivity. Qed.
+
+Definition cur_ok (text : str) (l : lexer) : Prop :=
+  (zip text (cu l) /\ Exact (cu l)) \/ (after (cu l) = [] /\ errcnt l = S maxErrors).
+
+Lemma ErrorfAt_spec text l ln cl kind subj :
+  Forall (tok_ok text) (items l) -> Forall (err_ok text) (errs l) -> start_ok text l ->
+  err_ok text {| e_pos := Some (ln, cl + 1); e_kind := kind; e_subject := subj |} ->
+  let l' := ErrorfAt l ln cl kind subj in
+  Forall (tok_ok text) (items l') /\ Forall (err_ok text) (errs l') /\
+  sline l' = sline l /\ scol l' = scol l /\ soff l' = soff l /\ state l' = state l /\
+  inPattern l' = inPattern l /\ (cur_ok text l -> cur_ok text l').
+Proof.
+  intros HI HE HS Hsub. cbv zeta. unfold ErrorfAt.
+  assert (I1 : Forall (tok_ok text) (items (emit l TError))) by (apply emitText_items; auto; exact I).
+  assert (C1 : cur_ok text l -> cur_ok text (emit l TError)).
+  { intros [[Z E]|[A B]]; [left; split; [exact Z|exact E]|right; split; [exact A|exact B]]. }
+  change (errcnt (emit l TError)) with (errcnt l).
+  destruct (Nat.eqb_spec (errcnt l) maxErrors) as [E8|N8].
+  - cbn [items errs sline scol soff state inPattern cu errcnt].
+    repeat split; auto.
+    + constructor; [|exact HE]. exact I.
+    + intros _. right. split; [reflexivity|]. rewrite E8. reflexivity.
+  - destruct (Nat.eqb_spec (errcnt l) (S maxErrors)) as [E9|N9].
+    + repeat split; auto.
+    + cbn [items errs sline scol soff state inPattern cu errcnt].
+      repeat split; auto.
+      intros C. destruct (C1 C) as [L|[A B]]; [left; exact L|]. exfalso. apply N9. exact B.
+Qed.
+
+Definition SInv (text : str) (l : lexer) : Prop :=
+  match state l with
+  | SGround => live text (cu l)
+  | SUnquoted => live text (cu l) /\ start_ok text l /\ span (cu l) (soff l) /\
+                 (tokrev (cu l) <> [] \/ is_delim (hd EOFR (after (cu l))) = false)
+  | SQString => zip text (cu l) /\ Exact (cu l) /\ start_ok text l /\
+                line (cu l) = sline l /\ col (cu l) - 1 = scol l
+  | SDone => True
+  end.
+Definition LInv (text : str) (l : lexer) : Prop :=
+  Forall (tok_ok text) (items l) /\ Forall (err_ok text) (errs l) /\ SInv text l.
+
+Lemma hd_cons (c : rune) a : c = hd EOFR a -> c <> EOFR -> exists r, a = c :: r.
+Proof. destruct a; cbn; intros -> H; [congruence|eauto]. Qed.
+
+Lemma advance_live text c r k w : after k = c :: r -> live text k -> live text (advance c k w).
+Proof. intros Ha [Z I]. split; [eapply advance_zip; eauto|left; eapply advance_exact; eauto]. Qed.
+
+Lemma advance_span c r k w off : after k = c :: r -> span k off -> span (advance c k w) off.
+Proof.
+  intros Ha (b0 & Hb & Hl). destruct (advance_fields c r k w Ha) as (Fb & _ & Ft & _).
+  exists b0. rewrite Fb, Ft, Hb. split; [reflexivity|exact Hl].
+Qed.
+Lemma same_place_span k k' off : same_place k k' -> span k off -> span k' off.
+Proof. intros (A & _ & C) (b0 & Hb & Hl). exists b0. rewrite A, C. auto. Qed.
+Lemma consume_span k : span (consume k) (length (before k)).
+Proof. exists (before k). split; reflexivity. Qed.
+
+Lemma rev_nonnil {A} (l : list A) : l <> [] -> rev l <> [].
+Proof. destruct l; [congruence|]. intros _ H. apply (f_equal (@length A)) in H. rewrite rev_length in H. discriminate. Qed.
+
+Lemma unquoted_loop_inv text fuel : forall l, Forall (tok_ok text) (items l) -> Forall (err_ok text) (errs l) ->
+  live text (cu l) -> start_ok text l -> span (cu l) (soff l) ->
+  (tokrev (cu l) <> [] \/ is_delim (hd EOFR (after (cu l))) = false) ->
+  LInv text (unquoted_loop fuel l).
+Proof.
+  induction fuel as [|f IH]; intros l HI HE L HS HSp HN; cbn [unquoted_loop].
+  - split; [exact HI|split; [exact HE|exact I]].
+  - destruct (peek (cu l)) as [c k] eqn:Hp.
+    destruct L as [Z C]. destruct (peek_spec text _ _ _ Z C Hp) as (Hc & SP & Zk & Ck & _).
+    destruct (is_delim c) eqn:Hd.
+    + split; [|split].
+      * cbn [with_state items]. unfold emit. apply emitText_items; auto. split.
+        -- apply span_text_at; cbn [with_cu cu soff]; [exact Zk|]. eapply same_place_span; eauto.
+        -- cbn [with_cu cu]. apply rev_nonnil. destruct SP as (_ & _ & ->).
+           destruct HN as [HN|HN]; [exact HN|]. rewrite <- Hc, Hd in HN. discriminate.
+      * exact HE.
+      * unfold SInv. cbn [with_state state emit emitText cu with_cu]. apply consume_live. split; assumption.
+    + assert (Hne : c <> EOFR) by (intros ->; discriminate).
+      destruct (hd_cons c _ Hc Hne) as [r Ha].
+      assert (Hak : after k = c :: r) by (destruct SP as (_ & -> & _); exact Ha).
+      rewrite (next_cons k c r Hak).
+      apply IH; cbn [with_cu items errs cu soff]; auto.
+      * apply advance_live with (r := r); [exact Hak|split; assumption].
+      * apply advance_span with (r := r); [exact Hak|]. eapply same_place_span; eauto.
+      * left. destruct (advance_fields c r k 1 Hak) as (_ & _ & -> & _). discriminate.
+Qed.
+
+Lemma lexUnquoted_inv text l : Forall (tok_ok text) (items l) -> Forall (err_ok text) (errs l) ->
+  live text (cu l) -> start_ok text l -> span (cu l) (soff l) ->
+  (tokrev (cu l) <> [] \/ is_delim (hd EOFR (after (cu l))) = false) ->
+  LInv text (lexUnquoted l).
+Proof. intros. unfold lexUnquoted. apply unquoted_loop_inv; assumption. Qed.
+
+(* ---- lexQString ---- *)
+Lemma next_cur_ok text l c k : cur_ok text l -> next (cu l) = (c, k) ->
+  cur_ok text (with_cu l k) /\
+  (c <> EOFR -> exists r, after (cu l) = c :: r /\ k = advance c (cu l) 1 /\ zip text (cu l) /\ Exact (cu l) /\
+                          zip text k /\ Exact k).
+Proof.
+  intros [[Z E]|[A B]] H; unfold next in H.
+  - destruct (after (cu l)) as [|x r] eqn:Ha; injection H as <- <-.
+    + split; [left; split; [exact Z|exact E]|congruence].
+    + assert (Z' : zip text (advance x (cu l) 1)) by (eapply advance_zip; eauto).
+      assert (E' : Exact (advance x (cu l) 1)) by (eapply advance_exact; eauto; left; exact E).
+      split; [left; split; assumption|]. intros _. exists r. auto 10.
+  - rewrite A in H. injection H as <- <-. split; [right; split; [exact A|exact B]|congruence].
+Qed.
+
+Lemma qstring_loop_inv text fuel : forall l indent over textrev,
+  Forall (tok_ok text) (items l) -> Forall (err_ok text) (errs l) -> start_ok text l -> cur_ok text l ->
+  LInv text (qstring_loop fuel l indent (sline l) (scol l) over textrev).
+Proof.
+  induction fuel as [|f IH]; intros l indent over textrev HI HE HS HC; cbn [qstring_loop].
+  - split; [exact HI|split; [exact HE|exact I]].
+  - destruct (next (cu l)) as [c k] eqn:Hn.
+    destruct (next_cur_ok text l c k HC Hn) as [HCk Hlive].
+    set (l1 := with_cu l k) in *.
+    assert (HI1 : Forall (tok_ok text) (items l1)) by exact HI.
+    assert (HE1 : Forall (err_ok text) (errs l1)) by exact HE.
+    assert (HS1 : start_ok text l1) by exact HS.
+    change (sline l) with (sline l1). change (scol l) with (scol l1).
+    destruct (c =? EOFR)%N eqn:E0.
+    { destruct (ErrorfAt_spec text l1 (sline l1) (scol l1) EMissingDQuote (Some (soff l1)) HI1 HE1 HS1 (err_ok_intro _ _ _ _ HS1))
+        as (A & B & _).
+      split; [exact A|split; [exact B|exact I]]. }
+    apply N.eqb_neq in E0. destruct (Hlive E0) as (r & Ha & Hk & Z0 & X0 & Zk & Xk).
+    destruct (c =? cDQ)%N eqn:E1.
+    { split; [|split; [exact HE|]].
+      - cbn [with_state items]. apply emitText_items; auto. exact I.
+      - unfold SInv. cbn [with_state state emitText cu]. apply consume_live. split; [exact Zk|left; exact Xk]. }
+    destruct (c =? cLF)%N eqn:E2; [apply IH; assumption|].
+    destruct ((c =? cSP) || (c =? cTAB))%N eqn:E3.
+    { destruct (negb over && (tcol k <=? indent)); apply IH; assumption. }
+    destruct (c =? cBSL)%N eqn:E4; [|apply IH; assumption].
+    apply N.eqb_eq in E4. subst c.
+    destruct (next k) as [c2 k2] eqn:Hn2.
+    destruct (next_cur_ok text l1 c2 k2 HCk Hn2) as [HCk2 _].
+    set (l2 := with_cu l1 k2) in *.
+    assert (HI2 : Forall (tok_ok text) (items l2)) by exact HI.
+    assert (HE2 : Forall (err_ok text) (errs l2)) by exact HE.
+    assert (HS2 : start_ok text l2) by exact HS.
+    change (sline l1) with (sline l2). change (scol l1) with (scol l2).
+    destruct (c2 =? c_n)%N; [apply IH; assumption|].
+    destruct (c2 =? c_t)%N; [apply IH; assumption|].
+    destruct (c2 =? cDQ)%N; [apply IH; assumption|].
+    destruct (c2 =? cBSL)%N; [apply IH; assumption|].
+    change (inPattern l1) with (inPattern l2).
+    destruct (inPattern l2); [apply IH; assumption|].
+    assert (Hpos : (line k, col k - 1 + 1) = linecol text (Nat.pred (length (before k)))).
+    { destruct (advance_fields cBSL r (cu l) 1 Ha) as (Fb & _ & _ & _ & Fl & Fc & _).
+      rewrite <- Hk in Fb, Fl, Fc. rewrite Fb, Fl, Fc. cbn [length Nat.pred].
+      change (cBSL =? cLF)%N with false. cbv iota.
+      rewrite (linecol_split text (before (cu l)) (after (cu l)) Z0).
+      destruct X0 as (-> & -> & _). f_equal. lia. }
+    destruct (ErrorfAt_spec text l2 (line k) (col k - 1) EInvalidEscape (Some (Nat.pred (length (before k))))
+                HI2 HE2 HS2 (err_ok_intro _ _ _ _ Hpos)) as (A & B & S1 & S2 & S3 & _ & _ & C).
+    rewrite <- S1, <- S2. apply IH; auto.
+    unfold start_ok. rewrite S1, S2, S3. exact HS2.
+Qed.
+
+Lemma lexQString_inv text l : Forall (tok_ok text) (items l) -> Forall (err_ok text) (errs l) ->
+  zip text (cu l) -> Exact (cu l) -> start_ok text l -> line (cu l) = sline l -> col (cu l) - 1 = scol l ->
+  LInv text (lexQString l).
+Proof.
+  intros HI HE Z X HS Hl Hc. unfold lexQString. rewrite Hl, Hc.
+  apply qstring_loop_inv; auto. left; split; assumption.
+Qed.
+
+Ltac ne := let Q := fresh in intro Q; vm_compute in Q; discriminate Q.
+
+(* what emit does to the invariant, for a token whose text is input[start:pos] *)
+Lemma emit_items text l c : Forall (tok_ok text) (items l) -> start_ok text l -> zip text (cu l) ->
+  span (cu l) (soff l) -> tokrev (cu l) <> [] -> Forall (tok_ok text) (items (emit l c)).
+Proof.
+  intros HI HS Z Sp Hn. unfold emit. apply emitText_items; auto.
+  assert (text_at text (soff l) (rev (tokrev (cu l))) /\ rev (tokrev (cu l)) <> []).
+  { split; [apply span_text_at; assumption|apply rev_nonnil; exact Hn]. }
+  destruct c; cbn; auto.
+Qed.
+
+Lemma acceptRun_stop text fuel : forall k, live text k -> (length (after k) < fuel)%nat ->
+  is_blank (hd EOFR (after (acceptRun fuel k))) = false.
+Proof.
+  induction fuel as [|f IH]; intros k [Z I] Hf; [lia|]. cbn [acceptRun].
+  destruct (after k) as [|c r] eqn:Ha.
+  - rewrite (next_eof k Ha). change (is_blank EOFR) with false. cbv iota.
+    unfold backup. cbn [set_width width after]. rewrite Ha. reflexivity.
+  - rewrite (next_cons k c r Ha). destruct (is_blank c) eqn:Hb.
+    + apply IH.
+      * apply advance_live with (r := r); [exact Ha|split; assumption].
+      * destruct (advance_fields c r k 1 Ha) as (_ & Fa & _). rewrite Fa. cbn [length] in Hf. lia.
+    + destruct (backup_advance k c r Ha I) as ((_ & Sa & _) & _). rewrite Sa, Ha. exact Hb.
+Qed.
+
+Lemma lexGround_inv text l : Forall (tok_ok text) (items l) -> Forall (err_ok text) (errs l) ->
+  live text (cu l) -> LInv text (lexGround l).
+Proof.
+  intros HI HE L. unfold lexGround. cbv zeta.
+  destruct (acceptRun_spec text (S (length (after (cu l)))) (cu l) L ltac:(lia)) as [La Ea].
+  set (k := consume (acceptRun (S (length (after (cu l)))) (cu l))).
+  assert (Lk : live text k) by (apply consume_live; exact La).
+  assert (Ek : Exact k) by exact Ea.
+  assert (Tk : tokrev k = []) by reflexivity.
+  assert (Sk : span k (length (before k))) by exact (consume_span (acceptRun _ _)).
+  set (l0 := Build_lexer k _ _ _ _ _ _ _ _).
+  assert (HS0 : start_ok text l0).
+  { unfold start_ok. cbn [l0 sline scol soff]. destruct Lk as [Zk _].
+    rewrite (linecol_split text (before k) (after k) Zk). destruct Ek as (-> & -> & _). f_equal. lia. }
+  destruct (peek k) as [c k1] eqn:Hp.
+  destruct Lk as [Zk Ck].
+  destruct (peek_spec text k c k1 Zk Ck Hp) as (Hc & SP & Zk1 & Ck1 & Hl1 & Hc1 & Hx1).
+  set (l1 := with_cu l0 k1).
+  assert (HI1 : Forall (tok_ok text) (items l1)) by exact HI.
+  assert (HE1 : Forall (err_ok text) (errs l1)) by exact HE.
+  assert (HS1 : start_ok text l1) by exact HS0.
+  destruct (c =? EOFR)%N eqn:E0; [split; [exact HI|split; [exact HE|exact I]]|].
+  apply N.eqb_neq in E0. destruct (hd_cons c _ Hc E0) as [r Ha]. clear Hc.
+  assert (Ha1 : after k1 = c :: r) by (destruct SP as (_ & -> & _); exact Ha).
+  assert (Sp1 : span k1 (length (before k))) by (eapply same_place_span; eauto).
+  assert (Tk1 : tokrev k1 = []) by (destruct SP as (_ & _ & ->); exact Tk).
+  assert (Bk1 : before k1 = before k) by (destruct SP as (-> & _); reflexivity).
+  (* one step over c *)
+  pose proof (advance_live text c r k1 1 Ha1 (conj Zk1 Ck1)) as L2.
+  pose proof (advance_exact c r k1 1 Ha1 Ck1) as X2.
+  pose proof (advance_span c r k1 1 _ Ha1 Sp1) as Sp2.
+  destruct (advance_fields c r k1 1 Ha1) as (Fb2 & Fa2 & Ft2 & _ & Fl2 & Fc2 & _).
+  rewrite (next_cons k1 c r Ha1).
+  set (k2 := advance c k1 1) in *.
+  destruct ((c =? cSEMI) || (c =? cLB) || (c =? cRB))%N eqn:E1.
+  { split; [|split; [exact HE|]].
+    - cbn [with_state items]. apply emit_items; auto.
+      + destruct L2; assumption.
+      + cbn [with_cu cu]. rewrite Ft2. discriminate.
+    - unfold SInv. cbn [with_state state]. apply consume_live. exact L2. }
+  assert (NLF : c <> cLF -> line k2 = line k /\ col k2 - 1 = col k).
+  { intro N. apply N.eqb_neq in N. rewrite N in Fl2, Fc2. rewrite Fl2, Fc2, Hl1, (Hc1 ltac:(apply N.eqb_neq; exact N)).
+    destruct Ek as (-> & -> & _). split; lia. }
+  destruct (c =? cSQ)%N eqn:E2.
+  { apply N.eqb_eq in E2. subst c. destruct (NLF ltac:(ne)) as [Hl2 Hc2].
+    destruct (skipTo1 cSQ (consume k2)) as [found k3] eqn:Hs.
+    destruct (skipTo1_spec text cSQ (consume k2) found k3 (consume_live _ _ L2) Hs) as (L3 & Hnf & Hf).
+    destruct found.
+    - destruct (Hf eq_refl) as [r3 Ha3].
+      set (l3 := emit (with_cu l1 k3) TString).
+      assert (HI3 : Forall (tok_ok text) (items l3)) by (apply emitText_items; auto; exact I).
+      change (cu l3) with (consume k3).
+      rewrite (next_cons (consume k3) cSQ r3 Ha3).
+      split; [exact HI3|split; [exact HE|]].
+      unfold SInv. cbn [with_state state with_cu cu].
+      apply advance_live with (r := r3); [exact Ha3|apply consume_live; exact L3].
+    - rewrite (Hnf eq_refl).
+      destruct (ErrorfAt_spec text (with_cu l1 (consume k2)) (line (consume k2)) (col (consume k2) - 1)
+                  EMissingSQuote (Some (soff l1)) HI1 HE1 HS1) as (A & B & _).
+      { apply err_ok_intro. cbn [consume line col]. rewrite Hl2, Hc2. exact HS0. }
+      split; [exact A|split; [exact B|exact I]]. }
+  destruct (c =? cDQ)%N eqn:E3.
+  { apply N.eqb_eq in E3. subst c. destruct (NLF ltac:(ne)) as [Hl2 Hc2].
+    split; [exact HI|split; [exact HE|]].
+    unfold SInv. cbn [with_state state with_cu cu]. destruct L2 as [Z2 _].
+    split; [exact Z2|split; [exact X2|split; [exact HS0|split; [exact Hl2|exact Hc2]]]]. }
+  (* a second look-ahead rune *)
+  destruct (peek k2) as [c2 k3] eqn:Hp2.
+  destruct L2 as [Z2 C2].
+  destruct (peek_spec text k2 c2 k3 Z2 C2 Hp2) as (Hc2' & SP3 & Zk3 & Ck3 & Hl3 & Hc3 & Hx3).
+  assert (Sp3 : span k3 (length (before k))) by (eapply same_place_span; eauto).
+  assert (Tk3 : tokrev k3 = [c]) by (destruct SP3 as (_ & _ & ->); rewrite Ft2, Tk1; reflexivity).
+  assert (HUQ : LInv text (with_state (with_cu l1 k3) SUnquoted)).
+  { split; [exact HI|split; [exact HE|]]. unfold SInv. cbn [with_state state with_cu cu].
+    split; [split; assumption|]. split; [exact HS0|]. split; [exact Sp3|]. left. rewrite Tk3. discriminate. }
+  destruct (c =? cSLASH)%N eqn:E4.
+  { apply N.eqb_eq in E4. subst c. destruct (NLF ltac:(ne)) as [Hl2 Hcc2].
+    destruct (c2 =? cSLASH)%N eqn:E5.
+    { apply N.eqb_eq in E5. rewrite E5 in *.
+      destruct (skipTo1 cLF k3) as [found k4] eqn:Hs.
+      destruct (skipTo1_spec text cLF k3 found k4 (conj Zk3 Ck3) Hs) as (L4 & Hnf & Hf).
+      destruct found.
+      - split; [exact HI|split; [exact HE|exact L4]].
+      - rewrite (Hnf eq_refl).
+        destruct (ErrorfAt_spec text (with_cu l1 k3) (line k3) (col k3 - 1)
+                    EInternalNL (Some (soff l1)) HI1 HE1 HS1) as (A & B & _).
+        { apply err_ok_intro. rewrite Hl3, (Hc3 ltac:(ne)). destruct X2 as (<- & <- & _). rewrite Hl2, Hcc2. exact HS0. }
+        split; [exact A|split; [exact B|exact I]]. }
+    destruct (c2 =? cSTAR)%N eqn:E6; [|exact HUQ].
+    apply N.eqb_eq in E6. rewrite E6 in *. clear E6.
+    assert (E6 : cSTAR <> EOFR) by ne.
+    destruct (hd_cons cSTAR _ Hc2' E6) as [r2 Ha2].
+    assert (Ha3 : after k3 = cSTAR :: r2) by (destruct SP3 as (_ & -> & _); exact Ha2).
+    rewrite (next_cons k3 cSTAR r2 Ha3).
+    pose proof (advance_live text cSTAR r2 k3 1 Ha3 (conj Zk3 Ck3)) as L4.
+    destruct (advance_fields cSTAR r2 k3 1 Ha3) as (_ & _ & _ & _ & Fl4 & Fc4 & _).
+    set (k4 := advance cSTAR k3 1) in *.
+    destruct (skipTo2 cSTAR cSLASH k4) as [found k5] eqn:Hs.
+    destruct (skipTo2_spec text cSTAR cSLASH k4 found k5 L4 Hs) as (L5 & Hnf & Hf).
+    destruct found.
+    - destruct (Hf eq_refl) as [r5 Ha5].
+      rewrite (next_cons k5 cSTAR (cSLASH :: r5) Ha5).
+      pose proof (advance_live text cSTAR _ k5 1 Ha5 L5) as L6.
+      destruct (advance_fields cSTAR _ k5 1 Ha5) as (_ & Fa6 & _).
+      rewrite (next_cons _ cSLASH r5 Fa6).
+      split; [exact HI|split; [exact HE|]]. unfold SInv. cbn [with_state state with_cu cu].
+      apply advance_live with (r := r5); assumption.
+    - rewrite (Hnf eq_refl).
+      destruct (ErrorfAt_spec text (with_cu l1 k4) (line k4) (col k4 - 2)
+                  EMissingComment (Some (soff l1)) HI1 HE1 HS1) as (A & B & _).
+      { apply err_ok_intro. rewrite Fl4, Fc4. change (cSTAR =? cLF)%N with false. cbv iota.
+        rewrite Hl3, (Hc3 ltac:(ne)). destruct X2 as (<- & <- & _).
+        replace (col k2 + 1 - 2 + 1) with (col k2 - 1 + 1) by lia. rewrite Hl2, Hcc2. exact HS0. }
+      split; [exact A|split; [exact B|exact I]]. }
+  destruct (c =? cPLUS)%N eqn:E7.
+  { destruct ((c2 =? cDQ) || (c2 =? cSQ))%N; [|exact HUQ].
+    split; [|split; [exact HE|]].
+    - cbn [with_state items]. apply emit_items; auto. cbn [with_cu cu]. rewrite Tk3. discriminate.
+    - unfold SInv. cbn [with_state state]. apply consume_live. split; assumption. }
+  (* default: an unquoted token starts at c *)
+  split; [exact HI|split; [exact HE|]]. unfold SInv. unfold l1. cbn [with_state state with_cu cu].
+  split; [split; assumption|]. split; [exact HS0|]. split; [exact Sp1|]. right.
+  rewrite Ha1. cbn [hd]. unfold is_delim.
+  apply orb_false_iff in E1. destruct E1 as [E1 E1c]. apply orb_false_iff in E1. destruct E1 as [E1a E1b].
+  pose proof (acceptRun_stop text (S (length (after (cu l)))) (cu l) L ltac:(lia)) as Hnb.
+  change (after (acceptRun (S (length (after (cu l)))) (cu l))) with (after k) in Hnb.
+  rewrite Ha in Hnb. cbn [hd] in Hnb. unfold is_blank in Hnb.
+  apply orb_false_iff in Hnb. destruct Hnb as [Hnb B4]. apply orb_false_iff in Hnb. destruct Hnb as [Hnb B3].
+  apply orb_false_iff in Hnb. destruct Hnb as [B1 B2].
+  rewrite E1a, E1b, E1c, E2, E3, B1, B2, B3, B4. apply N.eqb_neq in E0. rewrite E0. reflexivity.
 Qed.
